@@ -1,5 +1,622 @@
 package main
 
-func buildWitness(o *checkOpts, P *Program, rp *oblReport) *witness { return nil }
+import (
+	"bytes"
+	"context"
+	"encoding/json"
+	"fmt"
+	"go/types"
+	"math"
+	"math/big"
+	"os"
+	"os/exec"
+	"path/filepath"
+	"strconv"
+	"strings"
+	"time"
 
-func runWitnessTest(repo, pkg, file, src string) (string, bool) { return "", false }
+	"golang.org/x/tools/go/ssa"
+)
+
+// ---------- probes: terms whose model values describe the inputs ----------
+
+type probe struct {
+	Path string // Go-like path, e.g. "b.Min.X", "p[0][1].Y"
+	Term string
+	Ty   types.Type
+}
+
+const probeElems = 4
+
+func (c *Ctx) probesFor(path, term string, t types.Type, depth int, out *[]probe) {
+	if depth > 4 {
+		return
+	}
+	st := newEntryState()
+	switch tt := t.Underlying().(type) {
+	case *types.Basic:
+		*out = append(*out, probe{path, term, t})
+	case *types.Struct:
+		for i := 0; i < tt.NumFields(); i++ {
+			c.probesFor(path+"."+tt.Field(i).Name(), c.fieldSel(t, i, term), tt.Field(i).Type(), depth+1, out)
+		}
+	case *types.Pointer:
+		*out = append(*out, probe{path + "#obj", "(pobj " + term + ")", tInt})
+		*out = append(*out, probe{path + "#idx", "(pidx " + term + ")", tInt})
+		if _, isArr := tt.Elem().Underlying().(*types.Array); isArr {
+			return
+		}
+		es := c.sortOf(tt.Elem())
+		c.probesFor("(*"+path+")", fmt.Sprintf("(select (select %s (pobj %s)) (pidx %s))", c.heap(st, es), term, term), tt.Elem(), depth+1, out)
+	case *types.Slice:
+		*out = append(*out, probe{path + "#len", "(slen " + term + ")", tInt})
+		*out = append(*out, probe{path + "#cap", "(scap " + term + ")", tInt})
+		*out = append(*out, probe{path + "#obj", "(sobj " + term + ")", tInt})
+		*out = append(*out, probe{path + "#off", "(soff " + term + ")", tInt})
+		es := c.sortOf(tt.Elem())
+		for i := 0; i < probeElems; i++ {
+			c.probesFor(fmt.Sprintf("%s[%d]", path, i), fmt.Sprintf("(select (select %s (sobj %s)) (+ (soff %s) %d))", c.heap(st, es), term, term, i), tt.Elem(), depth+1, out)
+		}
+	case *types.Interface:
+		*out = append(*out, probe{path + "#tag", "(itag " + term + ")", tInt})
+		for i, ct := range c.tagTypes {
+			if i > 12 {
+				break
+			}
+			if _, isIface := ct.Underlying().(*types.Interface); isIface {
+				continue
+			}
+			c.probesFor(fmt.Sprintf("%s.(%s)", path, types.TypeString(ct, func(p *types.Package) string { return "" })), c.unbox(ct, "(ival "+term+")"), ct, depth+1, out)
+		}
+	case *types.Array:
+		n := tt.Len()
+		if n > 8 {
+			n = 8
+		}
+		for i := int64(0); i < n; i++ {
+			c.probesFor(fmt.Sprintf("%s[%d]", path, i), fmt.Sprintf("(select %s %d)", term, i), tt.Elem(), depth+1, out)
+		}
+	}
+}
+
+// ---------- model value parsing ----------
+
+// parseSexprs parses the output of (get-value ...) : ((t1 v1) (t2 v2) ...)
+func parseTop(s string) []string {
+	s = strings.TrimSpace(s)
+	return splitArgsAll(s)
+}
+
+func splitArgsAll(t string) []string {
+	t = strings.TrimSpace(t)
+	if !strings.HasPrefix(t, "(") {
+		return nil
+	}
+	// find matching close of the first paren
+	depth := 0
+	end := -1
+	for i := 0; i < len(t); i++ {
+		if t[i] == '(' {
+			depth++
+		} else if t[i] == ')' {
+			depth--
+			if depth == 0 {
+				end = i
+				break
+			}
+		}
+	}
+	if end < 0 {
+		return nil
+	}
+	inner := "(" + "x " + t[1:end] + ")"
+	a := splitArgs(inner)
+	if len(a) > 0 {
+		return a[1:]
+	}
+	return nil
+}
+
+func decodeValue(v string, t types.Type, mode Mode) (interface{}, string) {
+	v = strings.TrimSpace(v)
+	if isFloat(t) {
+		f, ok := decodeFloat(v, mode)
+		if !ok {
+			return nil, v
+		}
+		return f, goFloat(f)
+	}
+	if isBool(t) {
+		return v == "true", v
+	}
+	if isInteger(t) {
+		if n, ok := decodeInt(v); ok {
+			return n, n.String()
+		}
+	}
+	return nil, v
+}
+
+func decodeInt(v string) (*big.Int, bool) {
+	v = strings.TrimSpace(v)
+	neg := false
+	if strings.HasPrefix(v, "(-") {
+		neg = true
+		v = strings.TrimSpace(strings.TrimSuffix(strings.TrimPrefix(v, "(-"), ")"))
+	}
+	n, ok := new(big.Int).SetString(v, 10)
+	if !ok {
+		return nil, false
+	}
+	if neg {
+		n.Neg(n)
+	}
+	return n, true
+}
+
+func decodeReal(v string) (*big.Rat, bool) {
+	v = strings.TrimSpace(v)
+	if strings.HasPrefix(v, "(-") {
+		r, ok := decodeReal(strings.TrimSuffix(strings.TrimSpace(strings.TrimPrefix(v, "(-")), ")"))
+		if ok {
+			return r.Neg(r), true
+		}
+		return nil, false
+	}
+	if strings.HasPrefix(v, "(/") {
+		a := splitArgs(v)
+		if len(a) == 3 {
+			x, ok1 := decodeReal(a[1])
+			y, ok2 := decodeReal(a[2])
+			if ok1 && ok2 && y.Sign() != 0 {
+				return x.Quo(x, y), true
+			}
+		}
+		return nil, false
+	}
+	v = strings.TrimSuffix(v, "?")
+	r, ok := new(big.Rat).SetString(v)
+	return r, ok
+}
+
+func decodeFloat(v string, mode Mode) (float64, bool) {
+	switch mode {
+	case ModeReal:
+		r, ok := decodeReal(v)
+		if !ok {
+			return 0, false
+		}
+		f, _ := r.Float64()
+		return f, true
+	case ModeFP:
+		switch {
+		case strings.HasPrefix(v, "(_ +oo"):
+			return math.Inf(1), true
+		case strings.HasPrefix(v, "(_ -oo"):
+			return math.Inf(-1), true
+		case strings.HasPrefix(v, "(_ NaN"):
+			return math.NaN(), true
+		case strings.HasPrefix(v, "(_ +zero"):
+			return 0, true
+		case strings.HasPrefix(v, "(_ -zero"):
+			return math.Copysign(0, -1), true
+		case strings.HasPrefix(v, "(fp "):
+			a := splitArgs(v)
+			if len(a) == 4 {
+				bits := bvBits(a[1]) + bvBits(a[2]) + bvBits(a[3])
+				if len(bits) == 64 {
+					u, err := strconv.ParseUint(bits, 2, 64)
+					if err == nil {
+						return math.Float64frombits(u), true
+					}
+				}
+			}
+		}
+	}
+	return 0, false
+}
+
+func bvBits(s string) string {
+	if strings.HasPrefix(s, "#b") {
+		return s[2:]
+	}
+	if strings.HasPrefix(s, "#x") {
+		var b strings.Builder
+		for _, ch := range s[2:] {
+			n, _ := strconv.ParseUint(string(ch), 16, 8)
+			b.WriteString(fmt.Sprintf("%04b", n))
+		}
+		return b.String()
+	}
+	return ""
+}
+
+func goFloat(f float64) string {
+	switch {
+	case math.IsInf(f, 1):
+		return "math.Inf(1)"
+	case math.IsInf(f, -1):
+		return "math.Inf(-1)"
+	case math.IsNaN(f):
+		return "math.NaN()"
+	case f == 0 && math.Signbit(f):
+		return "math.Copysign(0, -1)"
+	}
+	return strconv.FormatFloat(f, 'g', -1, 64)
+}
+
+// modelValues re-runs a solver on the failing query asking for the probes.
+func modelValues(rp *oblReport, probes []probe, timeoutS int) map[string]string {
+	if len(probes) == 0 {
+		return nil
+	}
+	var extra []string
+	if len(rp.obl.Using) > 0 {
+		extra = rp.obl.ctx.lemmaAxioms(rp.obl.Using, nil)
+	}
+	q := rp.obl.query(extra, 0)
+	q = strings.Replace(q, "(get-model)\n", "", 1)
+	var ts []string
+	for _, p := range probes {
+		ts = append(ts, p.Term)
+	}
+	q += "(get-value (" + strings.Join(ts, " ") + "))\n"
+	solver := rp.Solver
+	if solver == "" {
+		solver = "z3-new"
+	}
+	res := runSolversRaw(rp.Name+"-probe", q, timeoutS, solver)
+	i := strings.Index(res, "sat")
+	if i < 0 || strings.HasPrefix(strings.TrimSpace(res), "unsat") {
+		return nil
+	}
+	body := strings.TrimSpace(res[i+3:])
+	pairs := parseTop(body)
+	out := map[string]string{}
+	for k, pr := range pairs {
+		a := splitArgs(pr)
+		if len(a) < 2 || k >= len(probes) {
+			continue
+		}
+		// value is everything after the first term; the term may contain spaces → use last element
+		out[probes[k].Path] = a[len(a)-1]
+	}
+	return out
+}
+
+func runSolversRaw(name, query string, timeoutS int, solver string) string {
+	dir := scratchDir()
+	file := filepath.Join(dir, fmt.Sprintf("probe-%d.smt2", time.Now().UnixNano()))
+	os.WriteFile(file, []byte(query), 0o644)
+	defer os.Remove(file)
+	for _, sp := range solverSpecs {
+		if sp.name != solver {
+			continue
+		}
+		argv := sp.argv(file, timeoutS)
+		ctx, cancel := context.WithTimeout(context.Background(), time.Duration(timeoutS+2)*time.Second)
+		defer cancel()
+		cmd := exec.CommandContext(ctx, argv[0], argv[1:]...)
+		var buf bytes.Buffer
+		cmd.Stdout = &buf
+		cmd.Stderr = &buf
+		cmd.Run()
+		return buf.String()
+	}
+	return ""
+}
+
+// ---------- building Go values from probe values ----------
+
+type goBuilder struct {
+	c      *Ctx
+	vals   map[string]string
+	mode   Mode
+	pkg    *types.Package
+	ok     bool
+	notes  []string
+	ptrVar map[string]string // object id -> Go variable holding the pointee
+	pre    []string          // statements declaring shared objects
+	n      int
+}
+
+func (g *goBuilder) qual(p *types.Package) string {
+	if p == g.pkg {
+		return ""
+	}
+	return p.Name()
+}
+
+func (g *goBuilder) typeStr(t types.Type) string { return types.TypeString(t, g.qual) }
+
+func (g *goBuilder) intVal(path string) (int64, bool) {
+	v, ok := g.vals[path]
+	if !ok {
+		return 0, false
+	}
+	n, ok := decodeInt(v)
+	if !ok || !n.IsInt64() {
+		return 0, false
+	}
+	return n.Int64(), true
+}
+
+// build returns a Go expression for the value at path of type t.
+func (g *goBuilder) build(path string, t types.Type, depth int) string {
+	switch tt := t.Underlying().(type) {
+	case *types.Basic:
+		v, ok := g.vals[path]
+		if !ok {
+			g.notes = append(g.notes, "no model value for "+path)
+			return g.zeroExpr(t)
+		}
+		_, txt := decodeValue(v, t, g.mode)
+		if isString(t) {
+			return `""`
+		}
+		if isFloat(t) || isInteger(t) || isBool(t) {
+			if _, named := t.(*types.Named); named {
+				return g.typeStr(t) + "(" + txt + ")"
+			}
+			return txt
+		}
+		return g.zeroExpr(t)
+	case *types.Struct:
+		var fs []string
+		for i := 0; i < tt.NumFields(); i++ {
+			fs = append(fs, tt.Field(i).Name()+": "+g.build(path+"."+tt.Field(i).Name(), tt.Field(i).Type(), depth+1))
+		}
+		return g.typeStr(t) + "{" + strings.Join(fs, ", ") + "}"
+	case *types.Pointer:
+		obj, ok := g.intVal(path + "#obj")
+		if !ok || obj == 0 {
+			return "nil"
+		}
+		pidx, _ := g.intVal(path + "#idx")
+		key := fmt.Sprintf("%s@%d.%d", g.typeStr(tt.Elem()), obj, pidx)
+		if v, ok := g.ptrVar[key]; ok {
+			return v
+		}
+		g.n++
+		name := fmt.Sprintf("obj%d", g.n)
+		g.ptrVar[key] = name
+		g.pre = append(g.pre, fmt.Sprintf("%s := &%s", name, strings.TrimPrefix(g.build("(*"+path+")", tt.Elem(), depth+1), "&")))
+		return name
+	case *types.Slice:
+		n, ok := g.intVal(path + "#len")
+		if !ok {
+			return "nil"
+		}
+		obj, _ := g.intVal(path + "#obj")
+		if obj == 0 && n == 0 {
+			return "nil"
+		}
+		if n > probeElems {
+			g.notes = append(g.notes, fmt.Sprintf("%s has length %d in the model; only %d elements are reconstructed", path, n, probeElems))
+			g.ok = false
+			n = probeElems
+		}
+		var es []string
+		for i := int64(0); i < n; i++ {
+			es = append(es, g.build(fmt.Sprintf("%s[%d]", path, i), tt.Elem(), depth+1))
+		}
+		expr := g.typeStr(t) + "{" + strings.Join(es, ", ") + "}"
+		if cp, ok := g.intVal(path + "#cap"); ok && cp > n && cp < 64 {
+			// keep spare capacity: it matters for aliasing appends
+			g.n++
+			name := fmt.Sprintf("sl%d", g.n)
+			g.pre = append(g.pre, fmt.Sprintf("%s := make(%s, %d, %d)", name, g.typeStr(t), n, cp), fmt.Sprintf("copy(%s, %s)", name, expr))
+			return name
+		}
+		return expr
+	case *types.Interface:
+		tag, ok := g.intVal(path + "#tag")
+		if !ok || tag == 0 {
+			return "nil"
+		}
+		if int(tag) <= len(g.c.tagTypes) {
+			ct := g.c.tagTypes[tag-1]
+			if _, isIface := ct.Underlying().(*types.Interface); !isIface {
+				return g.build(fmt.Sprintf("%s.(%s)", path, types.TypeString(ct, func(p *types.Package) string { return "" })), ct, depth+1)
+			}
+		}
+		g.notes = append(g.notes, fmt.Sprintf("%s has an unknown dynamic type tag %d", path, tag))
+		g.ok = false
+		return "nil"
+	case *types.Array:
+		var es []string
+		for i := int64(0); i < tt.Len() && i < 8; i++ {
+			es = append(es, g.build(fmt.Sprintf("%s[%d]", path, i), tt.Elem(), depth+1))
+		}
+		return g.typeStr(t) + "{" + strings.Join(es, ", ") + "}"
+	}
+	g.ok = false
+	g.notes = append(g.notes, "cannot reconstruct "+path+" of type "+t.String())
+	return g.zeroExpr(t)
+}
+
+func (g *goBuilder) zeroExpr(t types.Type) string {
+	switch t.Underlying().(type) {
+	case *types.Basic:
+		if isString(t) {
+			return `""`
+		}
+		if isBool(t) {
+			return "false"
+		}
+		return "0"
+	case *types.Struct, *types.Array:
+		return g.typeStr(t) + "{}"
+	}
+	return "nil"
+}
+
+// buildWitness extracts concrete inputs from the model and replays them on
+// the real code with an in-package test injected through -overlay.
+func buildWitness(o *checkOpts, P *Program, rp *oblReport) *witness {
+	if rp.res.Status != "sat" {
+		return nil
+	}
+	c := rp.obl.ctx
+	fnKey := ""
+	for k, f := range P.funcByKey {
+		if funcDisplay(f) == rp.obl.Func {
+			fnKey = k
+		}
+	}
+	fn := P.funcByKey[fnKey]
+	if fn == nil || fn.Parent() != nil {
+		return nil
+	}
+	var probes []probe
+	var pterms []string
+	for _, cmd := range c.cmds {
+		if strings.HasPrefix(cmd, "(declare-fun p_") {
+			pterms = append(pterms, strings.Fields(cmd)[1])
+		}
+	}
+	if len(pterms) < len(fn.Params) {
+		return nil
+	}
+	for i, p := range fn.Params {
+		c.probesFor(p.Name(), pterms[i], p.Type(), 0, &probes)
+	}
+	vals := modelValues(rp, probes, 20)
+	if vals == nil {
+		return nil
+	}
+	g := &goBuilder{c: c, vals: vals, mode: c.mode, pkg: funcPkg(fn), ok: true, ptrVar: map[string]string{}}
+	var argExprs []string
+	for _, p := range fn.Params {
+		argExprs = append(argExprs, g.build(p.Name(), p.Type(), 0))
+	}
+	src := g.testSource(fn, argExprs, rp)
+	pkgPath := funcPkg(fn).Path()
+	dir := P.PkgDirs[pkgPath]
+	testFile := filepath.Join(dir, "zz_replay_verif_test.go")
+	out, failed := runWitnessTest(o.repo, pkgPath, testFile, src)
+	w := &witness{TestFile: testFile, TestSource: src, Pkg: pkgPath, Output: out, Confirmed: failed && g.ok || failed}
+	mv, _ := json.Marshal(vals)
+	w.Output = "model values: " + string(mv) + "\nnotes: " + strings.Join(g.notes, "; ") + "\n" + out
+	return w
+}
+
+// testSource writes an in-package test that calls fn on the witness and
+// reports REPLAY-FAIL if it panics (safety) or runs past the deadline; for
+// postconditions the values are printed and the executable check (if the
+// clause compiles to Go) decides.
+func (g *goBuilder) testSource(fn *ssa.Function, args []string, rp *oblReport) string {
+	var b strings.Builder
+	pkg := funcPkg(fn)
+	b.WriteString("package " + pkg.Name() + "\n\n")
+	b.WriteString("import (\n\t\"fmt\"\n\t\"math\"\n\t\"testing\"\n")
+	imports := map[string]bool{}
+	for _, a := range append(append([]string{}, args...), g.pre...) {
+		for _, imp := range pkg.Imports() {
+			if strings.Contains(a, imp.Name()+".") && imp.Name() != "math" && imp.Name() != "fmt" {
+				imports[imp.Path()] = true
+			}
+		}
+	}
+	for p := range imports {
+		b.WriteString("\t\"" + p + "\"\n")
+	}
+	b.WriteString(")\n\nvar _ = math.Inf\nvar _ = fmt.Sprint\n\n")
+	b.WriteString("// obligation: " + rp.Name + "\n// " + strings.ReplaceAll(rp.Text, "\n", " ") + "\n")
+	// executable postcondition
+	var gc *goComp
+	check := ""
+	if rp.Kind == "ensures" && rp.obl.Expr != nil {
+		gc = &goComp{c: g.c, pkg: pkg, funcs: map[string]string{}, ok: true, bound: map[string]bool{}}
+		for i := 0; i < fn.Signature.Results().Len(); i++ {
+			gc.results = append(gc.results, fmt.Sprintf("r%d", i))
+			gc.resNames = append(gc.resNames, fn.Signature.Results().At(i).Name())
+		}
+		check = gc.expr(rp.obl.Expr)
+		if !gc.ok {
+			g.notes = append(g.notes, "postcondition is not executable: "+gc.why)
+			check = ""
+		}
+	}
+	if gc != nil && gc.ok {
+		b.WriteString(gc.helpers())
+	}
+	b.WriteString("func TestReplayVerif(t *testing.T) {\n")
+	for _, p := range g.pre {
+		b.WriteString("\t" + p + "\n")
+	}
+	for i, p := range fn.Params {
+		b.WriteString(fmt.Sprintf("\t%s := %s\n\t_ = %s\n", p.Name(), args[i], p.Name()))
+	}
+	var names []string
+	for _, p := range fn.Params {
+		names = append(names, p.Name())
+	}
+	call := ""
+	sig := fn.Signature
+	if sig.Recv() != nil {
+		call = names[0] + "." + fn.Name() + "(" + strings.Join(names[1:], ", ") + ")"
+	} else {
+		call = fn.Name() + "(" + strings.Join(names, ", ") + ")"
+	}
+	if sig.Variadic() {
+		call = strings.TrimSuffix(call, ")") + "...)"
+	}
+	b.WriteString("\tdefer func() {\n\t\tif r := recover(); r != nil {\n\t\t\tt.Fatalf(\"REPLAY-FAIL panic: %v\", r)\n\t\t}\n\t}()\n")
+	if gc != nil && gc.ok {
+		for _, o := range gc.olds {
+			b.WriteString("\t" + o + "\n")
+		}
+	}
+	nres := sig.Results().Len()
+	if nres == 0 {
+		b.WriteString("\t" + call + "\n")
+	} else {
+		var rs []string
+		for i := 0; i < nres; i++ {
+			rs = append(rs, fmt.Sprintf("r%d", i))
+		}
+		b.WriteString("\t" + strings.Join(rs, ", ") + " := " + call + "\n")
+		for _, r := range rs {
+			b.WriteString("\tfmt.Printf(\"REPLAY-RESULT " + r + " = %#v\\n\", " + r + ")\n")
+		}
+	}
+	if check != "" {
+		b.WriteString("\tif !(" + check + ") {\n\t\tt.Fatalf(\"REPLAY-FAIL postcondition violated on the real code\")\n\t}\n")
+	} else if rp.Kind != "safety" {
+		b.WriteString("\tt.Logf(\"REPLAY-NOTE this obligation has no executable check; inputs and results are printed only\")\n")
+	}
+	b.WriteString("}\n")
+	return b.String()
+}
+
+func runWitnessTest(repo, pkg, file, src string) (string, bool) {
+	dir := scratchDir()
+	srcFile := filepath.Join(dir, fmt.Sprintf("replay-%d_test.go", time.Now().UnixNano()))
+	if err := os.WriteFile(srcFile, []byte(src), 0o644); err != nil {
+		return err.Error(), false
+	}
+	ov := map[string]map[string]string{"Replace": {file: srcFile}}
+	ob, _ := json.Marshal(ov)
+	ovFile := filepath.Join(dir, fmt.Sprintf("ov-%d.json", time.Now().UnixNano()))
+	os.WriteFile(ovFile, ob, 0o644)
+	modf := filepath.Join(dir, "go.mod")
+	if _, err := os.Stat(modf); err != nil {
+		copyFile(filepath.Join(repo, "go.mod"), modf)
+		copyFile(filepath.Join(repo, "go.sum"), filepath.Join(dir, "go.sum"))
+	}
+	ctx, cancel := context.WithTimeout(context.Background(), 180*time.Second)
+	defer cancel()
+	cmd := exec.CommandContext(ctx, "bash", "-c", fmt.Sprintf("ulimit -v 8000000; cd %s && go test -modfile=%s -overlay %s -vet=off -count=1 -timeout 60s -run '^TestReplayVerif$' -v %s", repo, modf, ovFile, pkg))
+	cmd.Env = append(os.Environ(), "GOFLAGS=-mod=mod", "GOPROXY=off", "GOSUMDB=off", "GOTOOLCHAIN=local")
+	var buf bytes.Buffer
+	cmd.Stdout = &buf
+	cmd.Stderr = &buf
+	err := cmd.Run()
+	out := buf.String()
+	if len(out) > 8000 {
+		out = out[:8000]
+	}
+	failed := err != nil && (strings.Contains(out, "REPLAY-FAIL") || strings.Contains(out, "panic:") || strings.Contains(out, "test timed out"))
+	return out, failed
+}
